@@ -131,7 +131,8 @@ func doSearches(rng *vhlib.Rng, thorough bool) {
 			}
 			add(len(xs)+1, "IsSortedFunc", "KIsSortedFunc "+ordName(key), xs, obs, len(xs) >= 2, nil)
 		}
-		// Compare / Equal and their Func variants: s2 = copy, prefix, extension, one element changed, unrelated
+		// Compare / Equal and their Func variants: s2 = copy, prefix, extension by 1..4, one element changed, unrelated
+		// (the systematic prefix / length-difference family is doComparePairs)
 		s1 := keys
 		var s2 []int64
 		switch rng.Intn(6) {
@@ -140,7 +141,10 @@ func doSearches(rng *vhlib.Rng, thorough bool) {
 		case 1:
 			s2 = append([]int64(nil), s1[:rng.Intn(n+1)]...)
 		case 2:
-			s2 = append(append([]int64(nil), s1...), int64(rng.Intn(5)))
+			s2 = append([]int64(nil), s1...)
+			for k := 1 + rng.Intn(4); k > 0; k-- {
+				s2 = append(s2, int64(rng.Intn(5)))
+			}
 		case 3, 4:
 			s2 = append([]int64(nil), s1...)
 			if n > 0 {
@@ -149,48 +153,7 @@ func doSearches(rng *vhlib.Rng, thorough bool) {
 		default:
 			s2 = g.f(rng, rng.Intn(n+2))
 		}
-		{
-			var c int
-			p, _ := vhlib.Recover(func() { c = bslice.Compare(s1, s2) })
-			obs := fmt.Sprintf("OInt %s", vhlib.Z(int64(c)))
-			if p {
-				obs = "OPanic"
-			}
-			add(n+1, "Compare", "KCompare "+vhlib.ZList(s2), s1, obs, n >= 1, nil)
-			var e bool
-			p, _ = vhlib.Recover(func() { e = bslice.Equal(s1, s2) })
-			obs = "OBool " + vhlib.Bool(e)
-			if p {
-				obs = "OPanic"
-			}
-			add(n+1, "Equal", "KEqual "+vhlib.ZList(s2), s1, obs, n >= 1, nil)
-		}
-		{
-			t1, t2 := tagged(s1), tagged(s2)
-			if rng.Bool() { // different tags, same keys: equal under the key comparison
-				for i := range t2 {
-					t2[i] ^= int64(rng.Intn(8))
-				}
-			}
-			var c int
-			p, _ := vhlib.Recover(func() {
-				c = bslice.CompareFunc(t1, t2, func(a, b int64) int { return i64(keyOf(a), keyOf(b)) })
-			})
-			obs := fmt.Sprintf("OInt %s", vhlib.Z(int64(c)))
-			if p {
-				obs = "OPanic"
-			}
-			add(n+1, "CompareFunc", "KCompareFunc OKey "+vhlib.ZList(t2), t1, obs, n >= 1, nil)
-			var e bool
-			p, _ = vhlib.Recover(func() {
-				e = bslice.EqualFunc(t1, t2, func(a, b int64) bool { return keyOf(a) == keyOf(b) })
-			})
-			obs = "OBool " + vhlib.Bool(e)
-			if p {
-				obs = "OPanic"
-			}
-			add(n+1, "EqualFunc", "KEqualFunc OKey "+vhlib.ZList(t2), t1, obs, n >= 1, nil)
-		}
+		comparePair(rng, "", s1, s2, false)
 		// Index / Contains
 		{
 			v := int64(rng.Intn(7)) - 3
